@@ -227,6 +227,20 @@ def dense_sessions(rng, net, sid_other_p=0.1):
         if any(o["id"] == name for o in sessions):
             name = f"x{k}"
         sessions.append({"id": name, "station": sid_, "arrival": a, "departure": dep, "requested": req, "est_dep": est, "battery": b})
+        if rng.random() < 0.35:
+            # the station is used again by a second session (back-to-back or after a gap): state left behind by the first
+            # occupant (cached limits, estimator entries, stale pilots) must not leak into the second
+            a2 = dep + rng.choice([0, 0, 1, 3])
+            dep2 = a2 + rng.randint(3, 10)
+            est2 = dep2 + rng.choice([0, 1, -1])
+            while est2 in used or est2 <= a2:
+                est2 += 1
+            used.add(est2)
+            req2 = rng.choice([1, 8, 25, 25])
+            b2 = rand_battery(rng, req2, ("ideal", "ideal", "l2c"))
+            b2["cap"] = max(b2["cap"], b2["init"] + req2 + 1)
+            sessions.append({"id": f"r{k}", "station": sid_, "arrival": a2, "departure": dep2, "requested": req2, "est_dep": est2,
+                             "battery": b2})
     rng.shuffle(sessions)
     return sessions
 
